@@ -437,6 +437,14 @@ func runC11(c *Ctx) {
 								okV = true
 							}
 						}
+						// a nil byte slice holds nothing
+						if at.Op == "eq" && u.bdd.Implies(r.Cond, u.Atom(at)) {
+							for i := 0; i < 2; i++ {
+								if acc := at.Args[i]; (acc.Op == "loopphi" || acc.Op == "loopval") && at.Args[1-i].IsNil() {
+									okV = true
+								}
+							}
+						}
 					}
 				}
 				if !okV && bad == "" {
